@@ -294,7 +294,10 @@ loop:
 					numSeries += len(r[i].Samples)
 				}
 
-				series = make([]promql.Series, numSeries)
+				// Keep the points collected from earlier batches.
+				if len(series) < numSeries {
+					series = append(series, make([]promql.Series, numSeries-len(series))...)
+				}
 
 				for _, vector := range r {
 					for i := range vector.Samples {
